@@ -194,8 +194,12 @@ def _returns_inside(s):
     return False
 
 
+def _is_static(h):
+    return len(h.decorator_list) == 1 and isinstance(h.decorator_list[0], ast.Name) and h.decorator_list[0].id == "staticmethod"
+
+
 def _check_inlinable(h):
-    if h.decorator_list:
+    if h.decorator_list and not _is_static(h):
         raise NotInlinable("decorated")
     a = h.args
     if a.vararg or a.kwarg or a.posonlyargs:
@@ -420,7 +424,10 @@ def _resolve_helper(call, env):
     if isinstance(fn, ast.Name) and fn.id in env["top"] and fn.id not in env["shadow"]:
         return env["top"][fn.id], False
     if isinstance(fn, ast.Attribute) and isinstance(fn.value, ast.Name) and env["self_name"] and fn.value.id == env["self_name"] and fn.attr in env["methods"]:
-        return env["methods"][fn.attr], True
+        h = env["methods"][fn.attr]
+        return h, not _is_static(h)
+    if isinstance(fn, ast.Attribute) and isinstance(fn.value, ast.Name) and fn.value.id == env.get("class_name") and fn.attr in env["methods"] and _is_static(env["methods"][fn.attr]):
+        return env["methods"][fn.attr], False
     return None, False
 
 
@@ -1112,8 +1119,10 @@ def _unroll_literal_loops(fnode, unknown, cnt):
             if not (isinstance(L, ast.For) and not L.orelse and isinstance(L.iter, (ast.Tuple, ast.List)) and 0 < len(L.iter.elts) <= 8):
                 continue
             tnames = [n.id for n in ast.walk(L.target) if isinstance(n, ast.Name)]
-            if not tnames or not any(t in unknown for t in tnames):
+            if not tnames:
                 continue
+            # (loop variables that the reference tree knows keep their binding
+            # through an explicit assignment in every unrolled copy)
             known_t = [t for t in tnames if t not in unknown]
             # no break / continue belonging to this loop, no rebinding of the loop variables
             bad = False
@@ -1537,6 +1546,8 @@ def _normalize_locals(fnode, known_locals, self_name, cnt, ref_defs=None):
         unknown = assigned - set(known_locals)
         _split_tuple_assigns(fnode, unknown)
         if not unknown:
+            if _unroll_literal_loops(fnode, unknown, cnt):
+                continue
             return
         if _unroll_literal_loops(fnode, unknown, cnt):
             continue
@@ -1598,6 +1609,50 @@ def _static_seq(e):
             return None
     t = ast.Tuple(elts=out, ctx=ast.Load())
     return ast.copy_location(t, e)
+
+
+def _for_else_to_while(fnode, cnt):
+    """v = a-1 ; for v in range(a, b): BODY else: E
+       ->  v = a-1 ; while True: if v >= b-1: E; break ; v += 1 ; BODY
+    (the counted main loop written as for/else; BODY does not rebind v, b is
+    not changed by BODY)"""
+    changed = False
+    for block in _all_blocks(fnode):
+        for i, L in enumerate(block):
+            if not (isinstance(L, ast.For) and L.orelse and isinstance(L.target, ast.Name) and isinstance(L.iter, ast.Call)
+                    and isinstance(L.iter.func, ast.Name) and L.iter.func.id == "range" and len(L.iter.args) in (1, 2) and not L.iter.keywords):
+                continue
+            v = L.target.id
+            a = 0 if len(L.iter.args) == 1 else (L.iter.args[0].value if isinstance(L.iter.args[0], ast.Constant) and isinstance(L.iter.args[0].value, int) else None)
+            if a is None:
+                continue
+            b = L.iter.args[-1]
+            init = None
+            for S in reversed(block[:i]):
+                if v in _names(S, (ast.Store, ast.Del)):
+                    if isinstance(S, ast.Assign) and len(S.targets) == 1 and isinstance(S.targets[0], ast.Name) and isinstance(S.value, ast.Constant) and S.value.value == a - 1:
+                        init = S
+                    break
+            if init is None:
+                continue
+            if any(v in _names(S, (ast.Store, ast.Del)) for S in L.body) or not _pure(b) or _conflict(b, L.body):
+                continue
+            # b - 1
+            if isinstance(b, ast.BinOp) and isinstance(b.op, ast.Add) and isinstance(b.right, ast.Constant) and b.right.value == 1:
+                lim = b.left
+            else:
+                lim = ast.BinOp(left=b, op=ast.Sub(), right=ast.Constant(1))
+            test = ast.Compare(left=ast.Name(id=v, ctx=ast.Load()), ops=[ast.GtE()], comparators=[lim])
+            stop = ast.If(test=test, body=list(L.orelse) + [ast.Break()], orelse=[])
+            inc = ast.AugAssign(target=ast.Name(id=v, ctx=ast.Store()), op=ast.Add(), value=ast.Constant(1))
+            W = ast.While(test=ast.Constant(True), body=[stop, inc] + list(L.body), orelse=[])
+            for x in (stop, inc, W):
+                ast.copy_location(x, L)
+            ast.fix_missing_locations(W)
+            block[i] = W
+            cnt.stats["for_else_loops"] = cnt.stats.get("for_else_loops", 0) + 1
+            changed = True
+    return changed
 
 
 def _split_isinstance_handlers(fnode, cnt):
@@ -1727,7 +1782,7 @@ def normalize_module(tree, modname):
         if isinstance(node, ast.FunctionDef):
             top[node.name] = node
         elif isinstance(node, ast.ClassDef):
-            classes[node.name] = {it.name: it for it in node.body if isinstance(it, ast.FunctionDef) and not it.decorator_list}
+            classes[node.name] = {it.name: it for it in node.body if isinstance(it, ast.FunctionDef) and (not it.decorator_list or _is_static(it))}
     unknown_top = {n: f for n, f in top.items() if n not in known_funcs and not f.decorator_list}
     unknown_meth = {c: {n: f for n, f in ms.items() if f"{c}.{n}" not in known_funcs} for c, ms in classes.items()}
     # unknown module-level literal constants
@@ -1795,6 +1850,7 @@ def normalize_module(tree, modname):
                 "top": unknown_top,
                 "methods": unknown_meth.get(cname, {}) if cname else {},
                 "self_name": self_name,
+                "class_name": cname,
                 "shadow": _names(f, ast.Store) | {a.arg for a in f.args.args},
             }
             _inline_in_function(f, env, cnt)
@@ -1841,5 +1897,11 @@ def normalize_module(tree, modname):
             pass
     for f in post_try:
         _split_isinstance_handlers(f, cnt)
+    for cname, f in all_functions():
+        if any(isinstance(x, ast.For) and x.orelse for x in ast.walk(f)):
+            if _for_else_to_while(f, cnt):
+                key = f"{cname}.{f.name}" if cname else f.name
+                if key in known_funcs:
+                    _normalize_locals(f, known_funcs[key], None, cnt, None)
     ast.fix_missing_locations(tree)
     return cnt.stats
